@@ -178,7 +178,9 @@ def rule_grp(A: Analysis, rep):
         if ok:
             st_ = ins[0][len("in(%s.name," % e):-1]
             marks = [n for n in g.nodes if n.kind == "stmt" and norm(n.ast) == "%s.add(%s.name)" % (st_, e)]
-            ok = bool(marks) and g.all_paths_pass(be, cn, marks, skip_labels=is_exc) and \
+            # every iteration that completes has recorded its name (before or after defining the experiment)
+            it_ends = [n for n in g.nodes if any(m is hdr and is_back(lb) for m, lb in n.succ)]
+            ok = bool(marks) and bool(it_ends) and all(g.all_paths_pass(be, e_, marks, skip_labels=skip) for e_ in it_ends) and \
                 all(g.reachable(r_, cn, skip_labels=skip) is False for r_ in raises.values())
             # the names remembered are those of this call only: a fresh empty set made before the loop (a set that
             # outlives the call would reject a name used by another group, another COND file, or a re-evaluation)
